@@ -735,7 +735,7 @@ func (fr *floatRun) tlc(c *core.Ctx) bool {
 	}
 	// 1. the unbounded naturals agree with integer arithmetic
 	vcfg := fmt.Sprintf("SPECIFICATION Spec\nINVARIANT Agree\nCHECK_DEADLOCK FALSE\nCONSTANTS MaxB2 = %d MaxB3 = %d\n", c.Pick(32, 256), c.Pick(16, 128))
-	r, err := tlcx.Run(c, tlcx.Opts{Module: "FloatArithValidate", Cfg: vcfg, Workers: tlcWorkers(c, c.Pick(4, 8)), Timeout: 30 * time.Minute})
+	r, err := tlcx.Run(c, tlcx.Opts{Module: "FloatArithValidate", Cfg: vcfg, Workers: tlcWorkers(c, c.Pick(2, 8)), Timeout: 30 * time.Minute})
 	if !tlcx.MustComplete(c, r, err, "FloatArithValidate") {
 		return false
 	}
@@ -781,7 +781,7 @@ func (fr *floatRun) tlc(c *core.Ctx) bool {
 	}
 	pj, _ := json.Marshal(params)
 	cfg := "SPECIFICATION Spec\nINVARIANT Laws\nINVARIANT Emit\nCHECK_DEADLOCK FALSE\nCONSTANT LB = 15\n"
-	r, err = tlcx.Run(c, tlcx.Opts{Module: "FloatArithScen", Cfg: cfg, Workers: tlcWorkers(c, 8), Timeout: 60 * time.Minute, Files: map[string]string{"c06f_params.json": string(pj)}, HeapMB: 8192})
+	r, err = tlcx.Run(c, tlcx.Opts{Module: "FloatArithScen", Cfg: cfg, Workers: tlcWorkers(c, c.Pick(6, 8)), Timeout: 60 * time.Minute, Files: map[string]string{"c06f_params.json": string(pj)}, HeapMB: 8192})
 	if !tlcx.MustComplete(c, r, err, "FloatArithScen") {
 		return false
 	}
